@@ -4,7 +4,7 @@ CONSTANTS
   RegIds = {1,2}
   FileIds = {1,2}
   CliIds = {1,2}
-  SrvIds = {1,2}
+  SrvIds = {1}
   TrackObs = TRUE
   TrackDeps = FALSE
   Dev = "none"
@@ -28,7 +28,7 @@ CONSTANTS
   Splice = FALSE
   Reloads = FALSE
   ExtFail = FALSE
-  MaxFree = 5
+  MaxFree = 4
 INVARIANT Agreement
 INVARIANT ClientAcceptsOnlyMatched
 INVARIANT ServerAcceptsOnlyMatched
